@@ -818,13 +818,15 @@ func consensusAllocUnit(w *worker, b *cbase, from int) {
 		if k-1 < from {
 			return
 		}
-		if len(batch) == 0 {
-			w.begin(k-1, []string{"ctype:" + ct.name}, func() (string, string, map[string]interface{}) {
+		if len(batch) == 0 || w.careful {
+			if !w.begin(k-1, []string{"ctype:" + ct.name}, func() (string, string, map[string]interface{}) {
 				return "alloc", "consensus=" + ct.name, map[string]interface{}{"kind": "alloc", "input": hex.EncodeToString(m), "api": "consensus=" + ct.name}
-			})
+			}) {
+				return
+			}
 		}
 		batch = append(batch, allocCase{"consensus=" + ct.name, m, func() { rlp.DecodeBytes(m, ct.fresh()) }})
-		if len(batch) >= 8 {
+		if len(batch) >= 8 || w.careful {
 			flush()
 		}
 	}
